@@ -109,6 +109,14 @@ func (c02) Plan(tier string, seed int64) []core.Scenario {
 	for i := 0; i < nc; i++ {
 		out = append(out, core.Sc("cancel-late").WithN("waitms", []int{2600, 500, 3500}[i%3]).WithN("others", 2+i%3).WithN("noise", i%3))
 	}
+	// concurrent calls whose arguments and results are tens to hundreds of kilobytes, all different
+	nbm := 4
+	if tier == "thorough" {
+		nbm = 40
+	}
+	for i := 0; i < nbm; i++ {
+		out = append(out, core.Sc("bigmix").WithS("transport", []string{"ws", "ws", "http"}[i%3]).WithN("workers", 4+4*(i%3)).WithN("same", i%2).WithN("noise", i%3))
+	}
 	for i := range out {
 		out[i].Seed = seed*999983 + int64(i)
 	}
@@ -128,6 +136,8 @@ func (p c02) Run(sc core.Scenario) core.Result {
 		p.cancelLate(sc, r)
 	case "across-reconnect":
 		p.acrossReconnect(sc, r)
+	case "bigmix":
+		p.bigMix(sc, r)
 	}
 	return r.Result()
 }
@@ -683,4 +693,89 @@ func (c02) confused(sc core.Scenario, r *core.R) {
 	r.Key(fmt.Sprintf("confused v%d", v), true)
 	r.Obs("confused_replies", 1)
 	r.Sample(map[string]interface{}{"transport": map[bool]string{true: "custom", false: "http"}[v%6 < 3], "reply_kind": map[bool]string{true: "error object", false: "result"}[v >= 6], "reply_id": []string{"other number", "string spelling of the number", "null"}[v%3], "caller_error": errStr(cerr)})
+}
+
+// bigMix: several goroutines call concurrently with arguments and results between 64 KiB and a few hundred
+// KiB, every payload derived from the call's own token, first one large warm-up call, then rounds of
+// small and large calls back to back. Each call must return the mirror of its own argument, and its
+// handler must have run exactly once with exactly that argument.
+func (c02) bigMix(sc core.Scenario, r *core.R) {
+	tr := sc.Str("transport")
+	env := NewEnv(EnvOpt{})
+	defer env.Shutdown()
+	pol := noisePolicy(sc)
+	defer pol.Install()()
+	cl, err := env.NewClient(ClientOpt{Transport: tr})
+	if err != nil {
+		r.Inconclusive("client: %v", err)
+		return
+	}
+	bg := context.Background()
+	mkPad := func(tok string, n int) string {
+		unit := tok + "|"
+		return strings.Repeat(unit, n/len(unit)+1)[:n]
+	}
+	w := Tok("w")
+	if v, err := cl.Mirror(bg, w, mkPad(w, 200<<10)); err != nil || v != svc.MirrorOf(w, mkPad(w, 200<<10)) {
+		r.Violate("wrong-result:big", "%s: warm-up call with a 200 KiB argument returned a wrong value (len %d, err %v)", tr, len(v), err)
+		return
+	}
+	workers := sc.I("workers")
+	sizes := []int{70 << 10, 70 << 10, 100, 130 << 10, 70 << 10, 3, 65 << 10, 300 << 10}
+	var wg sync.WaitGroup
+	var mu sync.Mutex
+	bad := 0
+	calls := 0
+	for g := 0; g < workers; g++ {
+		g := g
+		wg.Add(1)
+		go func() {
+			defer wg.Done()
+			for round := 0; round < 6; round++ {
+				n := sizes[(g+round)%len(sizes)]
+				if sc.I("same") == 1 && round%2 == 0 {
+					n = 70 << 10 // all workers use the same size in this round
+				}
+				t := Tok("m")
+				pad := mkPad(t, n)
+				v, err := cl.Mirror(bg, t, pad)
+				want := svc.MirrorOf(t, pad)
+				mu.Lock()
+				calls++
+				if err != nil || v != want {
+					bad++
+					if bad <= 3 {
+						got := core.Trunc(v, 60)
+						if len(v) == len(want) && err == nil {
+							for i := range v {
+								if v[i] != want[i] {
+									lo := i - 20
+									if lo < 0 {
+										lo = 0
+									}
+									got = fmt.Sprintf("same length, first difference at byte %d: got ...%q, want ...%q", i, core.Trunc(v[lo:], 50), core.Trunc(want[lo:], 50))
+									break
+								}
+							}
+						}
+						r.Violate("wrong-result:big", "%s: call %s with a %d-byte argument, %d callers at once: returned (len %d, err %v), expected the mirror of its own argument (len %d): %s", tr, t, n, workers, len(v), err, len(want), got)
+					}
+				}
+				mu.Unlock()
+				if e := env.Svc.Enters(t); e != 1 {
+					r.Violate("handler-run-count:big", "%s: handler of call %s (%d-byte argument) ran %d times", tr, t, n, e)
+				}
+			}
+		}()
+	}
+	done := make(chan struct{})
+	go func() { wg.Wait(); close(done) }()
+	if !core.WaitProgress(done, 2*core.Grace, func() int64 { mu.Lock(); defer mu.Unlock(); return int64(calls) }) {
+		r.Violate("response-dropped", "%s: concurrent large calls did not complete (%d done)", tr, calls)
+	}
+	r.Key(fmt.Sprintf("bigmix %s workers=%d same=%d", tr, workers, sc.I("same")), true)
+	r.Obs("calls", int64(calls))
+	r.Obs("big_calls", int64(calls))
+	r.Sig(core.Log.Signature())
+	r.Sample(map[string]interface{}{"transport": tr, "scenario": "concurrent calls with 64-300 KiB arguments and results", "workers": workers, "calls": calls, "wrong": bad})
 }
